@@ -188,6 +188,13 @@ class SyncedList(SyncedCollection, MutableSequence):
         """
         data = _convert_numpy(data)
         if _sequence_resolver.get_type(data) == "SEQUENCE":
+            if self._root is not None:
+                # A nested collection is only a part of the synced data: apply
+                # the change to the current content of the resource so that
+                # changes made through other handles are not overwritten.
+                with self._load_and_save:
+                    self._update(data)
+                return
             self._update(data)
             with self._thread_lock:
                 self._save()
@@ -241,6 +248,11 @@ class SyncedList(SyncedCollection, MutableSequence):
             self._data.remove(self._from_base(data=value, parent=self))
 
     def clear(self):  # noqa: D102
+        if self._root is not None:
+            # See the comment in reset().
+            with self._load_and_save:
+                self._data.clear()
+            return
         self._data = []
         with self._thread_lock:
             self._save()
